@@ -48,31 +48,22 @@ HTTP_NAMES = ["HTTPChannel", "_ChunkedTransferDecoder", "_IdentityTransferDecode
               "_chunkExtChars", "toChunk", "Request", "_getContentFile"]
 
 
-class _NameCache:
-    """stands in for _NameEncoder._canonicalHeaderCache in the lifted world: a dict keyed by header
-    names would hash (= realise) a name containing a symbolic byte; names with symbolic content take
-    the uncached code path, concrete names are cached exactly as in the real class"""
-
-    def __init__(self):
-        self.d = {}
-
-    def get(self, k, d=None):
-        if isinstance(k, str) or lbytes._is_conc(k.s):
-            return self.d.get(k, d)
-        return d
-
-    def __len__(self):
-        return len(self.d)
-
-    def __setitem__(self, k, v):
-        if isinstance(k, str) or (lbytes._is_conc(k.s) and lbytes._is_conc(v.s)):
-            self.d[k] = v
+def fresh_name_cache():
+    """every harness run starts from an empty header-name cache.  `_nameEncoder._canonicalHeaderCache` is
+    a process-global dict that outlives a request, a connection and (under CrossHair) a path: real world
+    -> cleared; lifted world -> a fresh equality-lookup map (a dict would hash = realise a name with a
+    symbolic byte), so that a name used a second time inside one harness run DOES take the cached code
+    path, exactly as in a long-running server"""
+    if LH.__real__:
+        LH._nameEncoder._canonicalHeaderCache.clear()
+    else:
+        LH._nameEncoder._canonicalHeaderCache = lbytes.SymDict()
 
 
 if LH.__real__:
     Headers = LH.Headers
 else:
-    LH._nameEncoder._canonicalHeaderCache = _NameCache()
+    fresh_name_cache()
     LH._NameEncoder._caseMappings = lbytes.SymDict(LH._NameEncoder._caseMappings)
 
     class Headers(LH.Headers):
@@ -250,7 +241,8 @@ BOUNDS = {"quick": {"v": 1, "bd": 2, "shapes": 12, "jshapes": 6},
 B = {}
 BOUNDS_TEXT = ("request streams of 44-136 bytes from 12 (quick) / 24 (thorough) shapes = framing {none, "
                "Content-Length, chunked} x obs-fold x Expect: 100-continue (x Connection: close in thorough), always "
-               "followed by a second pipelined request.  seg_split: symbolic header value of v bytes (1 quick / 2 "
+               "followed by a second pipelined request.  seg_stray: Content-Length / chunked body followed by 0-3 "
+               "stray CRLFs and two more requests, symbolic body, every split.  seg_split: symbolic header value of v bytes (1 quick / 2 "
                "thorough), symbolic body of bd bytes, every 2-piece split of every stream.  seg_junk: one symbolic "
                "junk byte replacing one of the 12-19 structural characters of a shape (request-line bytes, "
                "separators, CR / LF, header-name byte, colon, length digit, chunk-size digit, chunk CRLF, last-chunk, "
@@ -264,8 +256,8 @@ OUTSIDE = ["streams outside the shapes (header names come from a concrete menu; 
            "timeouts (timeOut=None: no reactor) and HTTP/2"]
 ASSUMPTIONS = ["LBytes/LBuf reproduce bytes/bytearray semantics (vlib.lbytes.selftest on every run); the lifted "
                "channel agrees with the real one on the concrete vectors below",
-               "Headers' dict is replaced by an equality-lookup ordered map and the header-name cache is disabled "
-               "in the lifted world (both only avoid hashing symbolic names)",
+               "in the lifted world Headers' dict and the process-global header-name cache are equality-lookup "
+               "ordered maps (a dict would hash a symbolic name); the cache starts empty at every harness run",
                "a transport delivers nothing after loseConnection() (as twisted.internet.tcp does)"]
 EXPLANATION = ("lifted real HTTPChannel + LineReceiver + decoders run twice on the same symbolic stream "
                "(whole / split at every index / byte-wise) with a recording requestFactory and transport")
@@ -332,7 +324,33 @@ def seg_split(shape: int, v: str, bd: str, split: int) -> bool:
     pre: 0 <= split
     post: _
     """
+    fresh_name_cache()
     stream, _ = build(shape, v, bd)
+    k = split_cases(len(stream), split)
+    whole = run_channel([stream])
+    two = run_channel([stream[:k], stream[k:]])
+    api.obs((whole[:3], two[:3]))
+    cover()
+    return _same(whole, two)
+
+
+def seg_stray(fr: int, ncr: int, bd: str, split: int) -> bool:
+    """
+    pre: 1 <= fr <= 2 and 0 <= ncr <= 3
+    pre: len(bd) == 2 and all_latin1(bd)
+    pre: 0 <= split
+    post: _
+    """
+    # a request with a Content-Length / chunked body, then 0-3 stray CRLFs (clients are known to send one
+    # after a POST body), then the next pipelined request: every split, in particular at the end of the
+    # body and inside the stray CRLFs
+    fresh_name_cache()
+    bd = fix(bd, 2)
+    if split_cases(2, fr) == 1:
+        first = "POST /a HTTP/1.1\r\nContent-Length: 2\r\n\r\n" + bd
+    else:
+        first = "POST /a HTTP/1.1\r\nTransfer-Encoding: chunked\r\n\r\n2\r\n" + bd + "\r\n0\r\n\r\n"
+    stream = first + "\r\n" * split_cases(3, ncr) + _SECOND + "GET /c HTTP/1.1\r\n\r\n"
     k = split_cases(len(stream), split)
     whole = run_channel([stream])
     two = run_channel([stream[:k], stream[k:]])
@@ -348,6 +366,7 @@ def seg_junk(shape: int, jpos: int, j: str, d: int) -> bool:
     pre: 0 <= d <= 3
     post: _
     """
+    fresh_name_cache()
     stream, anchors = build(shape, "v", "bd")
     jp = split_cases(18, jpos)
     if jp >= len(anchors):
@@ -370,6 +389,7 @@ def seg_junk_all(shape: int, jpos: int, j: str, split: int) -> bool:
     pre: 0 <= split
     post: _
     """
+    fresh_name_cache()
     stream, anchors = build(shape, "v", "bd")
     jp = split_cases(18, jpos)
     if jp >= len(anchors):
@@ -393,6 +413,8 @@ def _jshape_shards(tier):
 
 
 HARNESSES = [
+    H(seg_stray, shards=[("fr == %d" % f, "ncr == %d" % n) for f in (1, 2) for n in range(4)],
+      timeout={"quick": 120, "thorough": 600}),
     H(seg_split, shards=_shape_shards, timeout={"quick": 240, "thorough": 1500}),
     H(seg_junk, shards=lambda tier: [("shape == %d" % s, "jpos %% 2 == %d" % r)
                                      for s in range(BOUNDS[tier]["jshapes"]) for r in range(2)],
@@ -403,6 +425,8 @@ HARNESSES = [
 ]
 
 VECTORS = {
+    "seg_stray": [(1, 0, "ab", 40), (1, 1, "ab", 41), (1, 2, "ab", 41), (1, 2, "ab", 42), (1, 3, "\r\n", 43), (2, 1, "ab", 60),
+                  (2, 2, "ab", 59), (2, 2, "xy", 0), (2, 3, "ab", 61)],
     "seg_split": [(0, "v", "ab", 5), (1, "\r", "\r\n", 40), (2, "\x00", "xy", 70), (4, " ", "a\xff", 33),
                   (8, "\t", "12", 60), (11, ":", "zz", 90), (13, "x", "..", 50), (17, "\n", "ab", 77)],
     "seg_junk": [(0, 0, "\r", 0), (1, 7, "x", 1), (2, 12, "g", 2), (2, 14, "\n", 3), (5, 8, "\t", 0),
